@@ -613,6 +613,20 @@ pub fn check_str(c: &StrCase, obs: &mut Obs) -> Result<(), Fail> {
     Ok(())
 }
 
+// ------------------------------------------------------------------ coverage-guided lane (libFuzzer)
+
+fn fuzz_spec() -> crate::fuzzlane::FuzzSpec {
+    crate::fuzzlane::FuzzSpec { target: "filter", oracle: |d, o| judge(d, o).map(|_| ()), seeds: crate::fuzzlane::seeds_filter, max_len: 96, runs_per_worker: 1000000 }
+}
+
+fn fuzz_run(ctx: &Ctx, known: &[crate::runner::KnownFinding]) -> crate::runner::LaneReport {
+    crate::fuzzlane::run(&fuzz_spec(), ctx, known)
+}
+
+fn fuzz_replay(v: serde_json::Value) -> Result<(), Fail> {
+    crate::fuzzlane::replay(&fuzz_spec(), v)
+}
+
 pub fn property() -> Property {
     Property {
         id: "C08",
@@ -629,6 +643,7 @@ pub fn property() -> Property {
             Box::new(PLane { name: "strings", cases: |t| t.pick(10_000, 300_000), strat: str_strat, check: check_str }),
             Box::new(PLane { name: "bytes", cases: |t| t.pick(5_000, 100_000), strat: bytes_strat, check: check_str }),
             Box::new(crate::runner::FnLane { name: "short-exhaustive", run: short_run, replay: short_replay }),
+            Box::new(crate::runner::FnLane { name: "fuzz", run: fuzz_run, replay: fuzz_replay }),
         ],
         workers: (8, 16),
     }
